@@ -1,11 +1,10 @@
 (* C14, token grammar, bytes: a run of the byte lexer over t1 that ends in normal mode can be cut off from what follows
    ([lex_split]): lexing t1 ++ rest is lexing t1, then rest, whenever the last byte of t1 and the first bytes of rest
    cannot belong to one token ([sepP]). *)
-From Soy Require Import Model.Bytes Model.JsGen Spec.JsSyntax Proofs.JsWfSplitBase Proofs.JsWfSplitNum.
+From Soy Require Import Model.Bytes Model.JsGen Spec.JsSyntax Spec.JsShape Proofs.JsWfSplitBase Proofs.JsWfSplitNum.
 From Coq Require Import ZifyBool ZifyNat ZifyN Lia.
 Open Scope N_scope.
 
-Definition lastint (ts : list jstoken) : bool := match last ts TStr with TNum x => is_int_text x | _ => false end.
 
 Definition sepP (t1 : bstr) (li : bool) (rest : bstr) : Prop :=
   match t1, rest with
